@@ -372,6 +372,19 @@ var c11Pairs = []c11Pair{
 						continue
 					}
 					t, _ = core.ParseDatatypeMessage(enc)
+				} else if r.Chance(1, 6) {
+					// member classes with property blocks of other lengths: time (2 bytes),
+					// bit field (4), reference (none)
+					switch r.Intn(3) {
+					case 0:
+						sz := []uint32{4, 8}[r.Intn(2)]
+						t = &core.DatatypeMessage{Class: core.DatatypeTime, Version: 1, Size: sz, ClassBitField: uint32(r.Intn(2)), Properties: []byte{byte(sz * 8), 0}}
+					case 1:
+						sz := []uint32{1, 2, 4, 8}[r.Intn(4)]
+						t = &core.DatatypeMessage{Class: core.DatatypeBitfield, Version: 1, Size: sz, ClassBitField: uint32(r.Intn(2)), Properties: []byte{0, 0, byte(sz * 8), 0}}
+					default:
+						t = &core.DatatypeMessage{Class: core.DatatypeReference, Version: 1, Size: 8}
+					}
 				} else {
 					b := genBasicDT(r)
 					enc, _ := core.EncodeDatatypeMessage(b)
@@ -1047,7 +1060,7 @@ func c11Run(c *ev.Ctx) {
 var C11 = &ev.Property{
 	ID:    "C11",
 	Level: "exploration",
-	Rule: "15 encoder/decoder pairs (superblock v0/2/3; object header v1/v2 up to the 255-byte chunk; datatype fixed/float/string, reference/opaque, compound v1/v3 incl. nested and with member lists in permuted (non-layout) order, vlen, array/enum, the 40 registry handlers; dataspace rank 1..32 with/without max dims; layout contiguous/chunked; attribute; attribute-info; link hard/soft/external with all flag combinations and name lengths 1/255/256/65535; link-info; symbol-table message), " +
+	Rule: "15 encoder/decoder pairs (superblock v0/2/3; object header v1/v2 up to the 255-byte chunk; datatype fixed/float/string, reference/opaque, compound v1/v3 incl. nested, with member lists in permuted (non-layout) order and with time / bit-field / reference members, vlen, array/enum, the 40 registry handlers; dataspace rank 1..32 with/without max dims; layout contiguous/chunked; attribute; attribute-info; link hard/soft/external with all flag combinations and name lengths 1/255/256/65535; link-info; symbol-table message), " +
 		"250 seeded well-formed values per case with boundary values; each value: encode twice (determinism), decode, compare every field, re-encode where possible. Filter-pipeline message is covered by C08. distinct = distinct value descriptors (pair + shape parameters); every value is non-trivial.",
 	Assumptions: []string{
 		"array/enum datatype properties have no library decoder: the inverse used is a direct reading of the layout the encoder documents",
